@@ -106,5 +106,7 @@ EmitCase == Complete => PrintT(<<"CASE", ToJson([toks |-> toks, tree |-> Tree(pr
 \* sizing aid (work/grammar-scratch/size.py): one short line per completed derivation
 CountCase == Complete => PrintT("C")
 \* shorthand fields must be recognisable when the tree is unparsed (PenneAst!FieldToks)
-ASSUME MemberNames \cap VarNames = {}
+\* (the `fields` focus gives a member and a variable the same name; it derives references with an address only,
+\* `m: &m`, which is never a shorthand)
+ASSUME MemberNames \cap VarNames = {} \/ ("FieldShort" \notin Enabled /\ 0 \notin Addrs)
 =============================================================================
